@@ -15,6 +15,7 @@ import (
 	"time"
 
 	"github.com/ipfs/go-cid"
+	"github.com/ipni/go-libipni/announce"
 	"github.com/ipni/go-libipni/announce/gossiptopic"
 	"github.com/ipni/go-libipni/announce/httpsender"
 	"github.com/ipni/go-libipni/announce/message"
@@ -521,6 +522,7 @@ func (c *ctx) httpCases() {
 		hc := c.genHTTPCase(r, peers)
 		c.emitHTTP(e, hc, i == 3)
 	}
+	c.announceSendCases(e, r.Fork("asend"), peers)
 	// hand-made: only unknown protocols; only invalid; undefined CID; an address already carrying the id
 	base := mustCast(rawCidV1(0x55, 0x12, r.Bytes(32)))
 	u := genUnknownAddr(r, peers[0])
@@ -542,6 +544,85 @@ func (c *ctx) httpCases() {
 			cl = append(cl, a.Class)
 		}
 		c.emitHTTP(e, httpCase{Peer: peers[0].String(), Msg: descOf(m), Classes: cl}, false)
+	}
+}
+
+// announce.Send (announce/sender.go) with an httpsender: builds the message itself
+func (c *ctx) announceSendCases(e *httpEnv, r *vlib.Rand, peers []peer.ID) {
+	c.Family("asend", []string{reqLibs, reqModel}, "asend_case_ok", 200)
+	u1, _ := url.Parse(e.srv1.URL)
+	n := c.Pick(30, 300)
+	for i := 0; i < n; i++ {
+		id := peers[r.Intn(len(peers))]
+		ex := []byte(nil)
+		if r.Intn(3) == 0 {
+			ex = r.Bytes(1 + r.Intn(20))
+		}
+		s, err := httpsender.New([]*url.URL{u1}, id, httpsender.WithExtraData(ex))
+		if err != nil {
+			panic(err)
+		}
+		x, _ := genCid(r)
+		if x.ByteLen() > 400 { // the CID cap is the business of the enc/http families
+			x = mustCast(rawCidV1(0x55, 0x12, r.Bytes(32)))
+		}
+		if i%10 == 9 {
+			x = cid.Undef
+		}
+		var maddrs []multiaddr.Multiaddr
+		var raw [][]byte
+		for k := r.Intn(4); k > 0; k-- {
+			a := genKnownAddr(r, peers[0])
+			ma, err := multiaddr.NewMultiaddrBytes(a.B)
+			if err != nil {
+				panic(err)
+			}
+			maddrs = append(maddrs, ma)
+			raw = append(raw, a.B)
+		}
+		ctx, cancel := context.WithTimeout(context.Background(), 15*time.Second)
+		var sendErr error
+		if i%7 == 3 {
+			sendErr = announce.Send(ctx, x, maddrs, nil, s) // a nil sender is skipped
+		} else {
+			sendErr = announce.Send(ctx, x, maddrs, s)
+		}
+		cancel()
+		s.Close()
+		bodies, _ := e.cap1.take()
+		c.Eval()
+		c.Count("announce.Send")
+		var obs string
+		switch {
+		case sendErr != nil:
+			obs = "(Some " + obsErr("bytes", 0) + ")"
+		case len(bodies) == 0:
+			obs = "None"
+			if x.Defined() {
+				c.Fail("announce-send-posted-nothing", "announce.Send returned nil without posting", nil)
+			}
+		default:
+			obs = "(Some " + obsOk("bytes", coqBytes(bodies[0])) + ")"
+			// direct oracle: the receiver decodes the CID and every address + /p2p/<id>
+			d := runDec(bodies[0])
+			want := message.Message{Cid: x, ExtraData: ex}
+			for _, a := range raw {
+				want.Addrs = append(want.Addrs, append(append([]byte{}, a...), p2pComponent(id)...))
+			}
+			if d.Err != nil || d.Panicked != "" || !sameMsg(want, d.Msg) {
+				c.fails["announce-send"]++
+				if c.fails["announce-send"] <= 2 {
+					c.Fail(fmt.Sprintf("announce-send:receiver-decodes-different-message:addrs=%d,cid-bytelen=%d", len(raw), x.ByteLen()), fmt.Sprint(d.Err), nil)
+				}
+			}
+			c.Nontrivial(fmt.Sprintf("asend:%d:%s", len(raw), hx(bodies[0][:min(len(bodies[0]), 40)])))
+		}
+		it := make([]string, len(raw))
+		for k, a := range raw {
+			it[k] = coqBytes(a)
+		}
+		cfg := fmt.Sprintf("(SCfg %s %s)", coqBytes(p2pComponent(id)), coqBytes(ex))
+		c.Case("asend", fmt.Sprintf("(%s, %s, %s, %s)", cfg, coqOptCid(x), vlib.CoqList(it), obs), map[string]interface{}{"cid": hx(x.Bytes()), "addrs": len(raw)})
 	}
 }
 
